@@ -15,11 +15,11 @@ P = {
          "Hash seeds cannot be forced in std; they are sampled through fresh RandomState instances and fresh processes. time_now and print are excluded.",
          "4/C02"),
  "C03": ("model-based stateful PBT: exhaustive short statement histories + random sessions with history invariants and a bind-once reference model",
-         "Exploration over histories: all statement sequences up to a length bound over a template alphabet on names {a,b} are run against a bind-once reference model, and random longer sessions are checked against history invariants (snapshot monotonicity, reserved names, no leaked locals, insert monitor).",
+         "Exploration over histories: all statement sequences up to a length bound over a template alphabet on names {a,b} are run against a bind-once reference model, and random longer sessions are checked against history invariants (snapshot monotonicity, reserved names, no leaked locals, insert monitor); every protected name x 15 binding forms is enumerated; sessions typed into the interactive CLI on a pseudo-terminal are compared with the same lines evaluated in-process.",
          "Hook H2 (insert log) is a monitor only. The reference model covers the template alphabet; random sessions rely on invariants.",
          "4/C03"),
  "C04": ("metamorphic PBT over a calling-context grammar; exhaustive arity table against a positional-binding model",
-         "Exploration: a closed closure is evaluated directly after its definition and again inside every generated calling context (shadowing parameters / do-locals, callback positions, nested calls, after failed redefinitions); results must coincide. All parameter lists with r+o<=4 (+rest) x argument counts 0..n+3 are enumerated against a binding model.",
+         "Exploration: a closed closure is evaluated directly after its definition and again inside every generated calling context (shadowing parameters / do-locals, callback positions, nested calls, after failed redefinitions); results must coincide; designed forms (re-entrant functions, closures bound to names they captured, back-to-back closures) also carry the value the call must have. All parameter lists with r+o<=4 (+rest) x argument counts 0..n+3 are enumerated against a binding model.",
          "Contexts are drawn from a fixed grammar of context kinds.",
          "4/C04"),
  "C05": ("behavioural round-trip PBT (emit -> JSON -> reload in a fresh heap -> apply) over generated closed closures, with exhaustive small parent/child shapes",
@@ -75,7 +75,7 @@ P = {
          "Rounding tolerance is stated on the magnitudes of the intermediates; the prefix table is harness-side.",
          "4/C17"),
  "C18": ("grammar-based program generation run in the real release CLI under an 8 MiB stack with an exit-status / message oracle",
-         "Exploration on the shipped binary: recursion shapes from a grammar (self / mutual / callbacks / do-blocks / nested-operator bodies, per-call nesting 1..32) must end with the call-depth error (exit 1), never a signal; bounded variants a few hundred calls deep must complete with the expected value.",
+         "Exploration on the shipped binary: recursion shapes from a grammar (self / mutual / callbacks / do-blocks / nested-operator bodies, per-call nesting 1..32) must end with the call-depth error (exit 1), never a signal; bounded variants a few hundred calls deep must complete with the expected value; single-line shapes are also typed into the interactive CLI on a pseudo-terminal.",
          "Only the real binary decides; RLIMIT_STACK 8 MiB models the default main-thread stack.",
          "4/C18"),
  "C19": ("model-based PBT of the CLI: generated scripts x input sets x invocation modes against a reference model of merging, outputs and exit status",
